@@ -979,3 +979,44 @@ func usedOnlyAsLoad(v ssa.Value) bool {
 	}
 	return true
 }
+
+// backendWriterFn: the function that writes one message to a BackendQueue – writeMessageToBackend on the pinned tree; after
+// a rename (a method of Message, say) the one function of package nsqd that calls BackendQueue.Put. Anchor failure only when
+// there is no such function or several.
+func backendWriterFn(c *an.Ctx) *ssa.Function {
+	if f := c.P.Func("nsqd", "writeMessageToBackend"); f != nil {
+		return f
+	}
+	var found []*ssa.Function
+	for _, fn := range c.P.PkgFuncs("nsqd") {
+		n := 0
+		an.Instrs(fn, func(in ssa.Instruction) {
+			if isInvokeOn(in, "BackendQueue", "Put", nil) {
+				n++
+			}
+		})
+		if n > 0 && fn.Parent() == nil {
+			found = append(found, fn)
+		}
+	}
+	if len(found) == 1 {
+		return found[0]
+	}
+	return c.Fn("nsqd", "writeMessageToBackend") // records the anchor failure
+}
+
+// errOperandOn: the error a return carries on this path – a merged result variable (single exit) is resolved to the operand
+// the path selected (needs PathQ.AllAlias).
+func errOperandOn(r *ssa.Return, st *an.PathState) ssa.Value {
+	if len(r.Results) == 0 {
+		return nil
+	}
+	v := r.Results[len(r.Results)-1]
+	if !an.IsErrorType(v.Type()) {
+		return nil
+	}
+	if st != nil {
+		v = st.Selected(v)
+	}
+	return an.Resolve(v)
+}
